@@ -3,7 +3,12 @@ package engine
 import (
 	"encoding/json"
 	"fmt"
+	"net/http"
+	"net/http/httptest"
+	"net/url"
+	"os"
 	"sort"
+	"strconv"
 	"strings"
 
 	"github.com/mimiro-io/datahub/internal/jobs"
@@ -43,6 +48,7 @@ type Session struct {
 	commit     map[int]int64     // commit[k]: real commit time of the write that moved the clock to k
 	ids        map[string]uint64 // abstract entity -> internal id (learned from writes)
 	tokens     map[int]uint64    // reader id -> real token
+	cursors    []relCursor       // relationship queries whose first page was served before the last step
 	Divs       []Divergence
 	Checks     int // number of compared answers
 	Skipped    int // queries not asked (outside what the reference defines)
@@ -168,11 +174,17 @@ func (s *Session) Run(b *Behaviour) error {
 		}
 	}
 	for i := range b.Steps {
+		if i == len(b.Steps)-1 {
+			s.openCursors(&b.Steps[i])
+		}
 		if err := s.Step(&b.Steps[i]); err != nil {
 			return fmt.Errorf("step %d (%s): %w", i, b.Steps[i].A, err)
 		}
 	}
 	if err := s.CheckObs(&b.Obs); err != nil {
+		return err
+	}
+	if err := s.checkCursors(&b.Obs); err != nil {
 		return err
 	}
 	if len(b.Jobs) > 0 {
@@ -182,6 +194,104 @@ func (s *Session) Run(b *Behaviour) error {
 	}
 	if s.lastBackup != nil {
 		return s.restoreAndCheck(s.lastBackup)
+	}
+	return nil
+}
+
+// A relCursor is a paged relationship query (limit 1) whose first page was served BEFORE the last step of
+// the behaviour and whose continuation is followed AFTER it: a client paging through an answer while the hub
+// is maintained (dataset deleted, garbage collected, compacted, restarted).
+type relCursor struct {
+	start string
+	inv   bool
+	scope []string
+	first []server.RelatedEntityResult
+	cont  []*server.RelatedFrom
+}
+
+// openCursors serves the first pages.  Only before a maintenance step that does not move the clock (the
+// continuation answers as of the instant of the first page; the specification's answers for that instant in
+// the final state are then the ones of its current instant).
+func (s *Session) openCursors(last *Step) {
+	s.cursors = nil
+	if !s.H.HasKind("rel") || s.Ad.Name() != "go" {
+		return
+	}
+	switch last.A {
+	case "delete", "gc", "compact", "lsm":
+	default:
+		return
+	}
+	for _, start := range s.H.Ent {
+		for _, inv := range []bool{false, true} {
+			for _, sc := range Subsets(s.H.Ds) {
+				live := true
+				for _, n := range sc {
+					if s.W.Dsm.GetDataset(s.DsReal(n)) == nil {
+						live = false
+					}
+				}
+				if !live {
+					continue
+				}
+				res, err := s.W.Store.GetManyRelatedEntitiesBatch([]string{s.EntURI(start)}, "*", inv, s.scopeReal(sc), 1, true)
+				if err != nil || len(res.Cont) == 0 {
+					continue
+				}
+				s.cursors = append(s.cursors, relCursor{start: start, inv: inv, scope: sc, first: res.Relations, cont: res.Cont})
+			}
+		}
+	}
+}
+
+// checkCursors follows the continuations in the final state: nothing they return may be missing from the
+// answer the specification gives for the same query now (the scope reduced to the datasets that still exist).
+func (s *Session) checkCursors(o *Obs) error {
+	if len(s.cursors) == 0 {
+		return nil
+	}
+	tab := map[relKey][]Pair{}
+	for _, r := range o.Rel {
+		tab[relKey{r.S, r.P, r.Inv, scopeKey(r.Sc), r.T}] = r.Pairs
+	}
+	for _, c := range s.cursors {
+		var sc []string
+		for _, n := range c.scope {
+			if contains(o.Names, n) {
+				sc = append(sc, n)
+			}
+		}
+		allowed := map[string]bool{}
+		if len(c.scope) == 0 || len(sc) > 0 {
+			for _, x := range pairSet(tab[relKey{c.start, "*", c.inv, scopeKey(sc), o.Clock}]) {
+				allowed[x] = true
+			}
+		}
+		cont := c.cont
+		var got []string
+		for i := 0; len(cont) > 0 && i < 50; i++ {
+			res, err := s.W.Store.GetManyRelatedEntitiesAtTime(cont, 1, true)
+			if err != nil {
+				return err
+			}
+			for _, x := range res.Relations {
+				got = append(got, s.predAbstract(x.PredicateURI)+">"+s.entAbstract(x.RelatedEntity.ID))
+			}
+			cont = res.Cont
+		}
+		s.Checks++
+		q := map[string]any{"start": c.start, "pred": "*", "inverse": c.inv, "scope": c.scope, "t": o.Clock, "paged": "first page before the last step, continuation after it"}
+		for _, g := range got {
+			if !allowed[g] {
+				var exp []string
+				for k := range allowed {
+					exp = append(exp, k)
+				}
+				sort.Strings(exp)
+				s.diverge("related-continued", q, map[string]any{"subset_of": exp}, got, "continuation")
+				break
+			}
+		}
 	}
 	return nil
 }
@@ -200,6 +310,17 @@ func (s *Session) Step(st *Step) error {
 			at = int64(ents[0].Recorded)
 		}
 		s.tick(1, at)
+		s.NonTriv = true
+	case "reject":
+		// the valid elements followed by one the hub cannot store: the whole batch must be refused
+		ents := s.batch(st.B)
+		poison := server.NewEntity(s.EntCurie(fmt.Sprintf("poison%d", len(s.Divs)+s.clock)), 0)
+		poison.References[s.PredCurie("p")] = nil
+		err := s.Ad.Store(s, s.DsReal(st.Ds), append(ents, poison))
+		s.Checks++
+		if err == nil {
+			s.diverge("reject", map[string]any{"ds": st.Ds, "b": st.B}, "the batch is refused (null reference)", "accepted", "")
+		}
 		s.NonTriv = true
 	case "txn":
 		m := map[string][]*server.Entity{}
@@ -572,10 +693,95 @@ func (s *Session) checkChanges(o *Obs) error {
 						s.diverge("changes-walk", map[string]any{"ds": n, "limit": lim, "latestOnly": lo}, exp, all, "")
 					}
 				}
+				// the same walks through GET /datasets/{ds}/changes (forward, and newest-first with reverse=true)
+				if s.relaxFull == nil && os.Getenv("VERIF_HTTP_CHG") != "0" {
+					full := s.expectItems(tab[chgKey{n, 0, 0, lo}].Items)
+					for _, reverse := range []bool{false, true} {
+						if reverse && lo {
+							continue // the handler's newest-first branch has no latest-only form
+						}
+						got, err := s.httpChangesWalk(real, lim, lo, reverse, len(full)+3)
+						if err != nil {
+							return err
+						}
+						exp := full
+						if reverse {
+							exp = make([]CEntity, len(full))
+							for i := range full {
+								exp[len(full)-1-i] = full[i]
+							}
+						}
+						s.Checks++
+						if !sameSeq(exp, got) {
+							s.diverge("changes-http-walk", map[string]any{"ds": n, "limit": lim, "latestOnly": lo, "reverse": reverse}, exp, got, "")
+						}
+					}
+				}
 			}
 		}
 	}
 	return nil
+}
+
+// httpChangesWalk reads a change feed through the HTTP handler page by page, following the continuation
+// tokens, until a page brings no entity (forward) or no token (reverse).
+func (s *Session) httpChangesWalk(real string, lim int, lo, reverse bool, maxPages int) ([]CEntity, error) {
+	h, err := s.W.Web()
+	if err != nil {
+		return nil, err
+	}
+	var all []CEntity
+	tok := ""
+	for i := 0; i < maxPages+1; i++ {
+		q := url.Values{}
+		if lim > 0 {
+			q.Set("limit", strconv.Itoa(lim))
+		}
+		if lo {
+			q.Set("latestOnly", "true")
+		}
+		if reverse {
+			q.Set("reverse", "true")
+		}
+		if tok != "" {
+			q.Set("since", tok)
+		}
+		req := httptest.NewRequest(http.MethodGet, "/datasets/"+real+"/changes?"+q.Encode(), nil)
+		rec := httptest.NewRecorder()
+		h.ServeHTTP(rec, req)
+		if rec.Code != 200 {
+			return nil, fmt.Errorf("GET changes: %d %s", rec.Code, rec.Body.String())
+		}
+		var elems []json.RawMessage
+		if err := json.Unmarshal(rec.Body.Bytes(), &elems); err != nil {
+			return nil, fmt.Errorf("GET changes: %w (%s)", err, rec.Body.String())
+		}
+		n, next := 0, ""
+		for _, raw := range elems {
+			var head struct {
+				ID    string `json:"id"`
+				Token string `json:"token"`
+			}
+			_ = json.Unmarshal(raw, &head)
+			switch head.ID {
+			case "@context":
+			case "@continuation":
+				next = head.Token
+			default:
+				e := &server.Entity{}
+				if err := json.Unmarshal(raw, e); err != nil {
+					return nil, err
+				}
+				all = append(all, Canon(e))
+				n++
+			}
+		}
+		if n == 0 || next == "" || (lim == 0 && !reverse) {
+			break
+		}
+		tok = next
+	}
+	return all, nil
 }
 
 // instants returns the real instants at which spec instant t can be asked.
